@@ -90,8 +90,17 @@ func symRaw(n int) []byte {
 // configuration's ADTS profile / index / channels; the bytes are the ISO header.
 func HarnessC11_EncDec() {
 	obj, sr, ch := validCfg()
-	lens := rawLenChoices()
-	n := lens[vChoice(len(lens))]
+	var n int
+	if vTier() == 1 {
+		// every raw length 1..8184 (two-level choice keeps each fork below the enumeration limit)
+		n = vChoice(128)*64 + vChoice(64) + 1
+		if n > 8184 {
+			vAssume(false)
+		}
+	} else {
+		lens := rawLenChoices()
+		n = lens[vChoice(len(lens))]
+	}
 	raw := symRaw(n)
 	enc := &ADTSImpl{asc: AudioSpecificConfig{Object: obj, SampleRate: sr, Channels: ch}}
 	data, err := enc.Encode(raw)
@@ -136,6 +145,9 @@ func HarnessC11_Concat() {
 	for i := 0; i < k; i++ {
 		obj, sr, ch := validCfg()
 		n := 1 + vChoice(3)
+		if vTier() == 1 {
+			n = 1 + vChoice(6)
+		}
 		raw := vBytes(n)
 		enc := &ADTSImpl{asc: AudioSpecificConfig{Object: obj, SampleRate: sr, Channels: ch}}
 		data, err := enc.Encode(raw)
@@ -201,6 +213,9 @@ func HarnessC11_RefDecode() {
 	full := vU16() & 0x7ff
 	crc := [2]byte{vU8(), vU8()}
 	n := 1 + vChoice(4)
+	if vTier() == 1 {
+		n = 1 + vChoice(12)
+	}
 	raw := vBytes(n)
 	trail := vBytes(vChoice(3))
 	frame := refADTSWrite(id, pa, uint8(obj)-1, uint8(sr), priv, uint8(ch), orig, home, cb, cs, full, 0, crc, raw)
